@@ -72,12 +72,19 @@ type Failure struct {
 
 type Config struct {
 	Arbitrary bool // arbitrary time mode: any armed timer (<= auto limit) may fire at any point at CostTimer
+	// ArbitraryQuiescent: like Arbitrary, but out-of-order timers fire only at instants where no thread is enabled
+	// (models timer goroutines waking up late relative to each other)
+	ArbitraryQuiescent bool
 	Describe  bool // fill Point.Desc and keep a step trace (slow; used for replay output)
 	MaxSteps  int  // safety net per execution (0 = 200000)
 	Races     bool // maintain vector clocks and check logged accesses (C20)
 	// BranchOnly restricts exploration: a non-default alternative is explored only if the thread name
 	// or timer label it would run contains one of these substrings (empty = no restriction)
 	BranchOnly []string
+	// BranchNoStart: with BranchOnly, do not branch on the first scheduling of a freshly spawned thread
+	BranchNoStart bool
+	// BranchAfterMark: no branching before the body calls Mark() (the set-up part runs under the default schedule only)
+	BranchAfterMark bool
 }
 
 type opKind uint8
@@ -153,6 +160,7 @@ type Sched struct {
 	world    uint64
 	keys     []uint64
 	spawnSeq uint64
+	marked   bool
 }
 
 var cur *Sched // the scheduler of the execution in progress (one per process)
@@ -345,7 +353,7 @@ func (s *Sched) computeAlts() []alt {
 			timely := !threadsEnabled && tm.deadline == min
 			if timely {
 				alts = append(alts, alt{timer: tm})
-			} else if s.cfg.Arbitrary {
+			} else if s.cfg.Arbitrary || (s.cfg.ArbitraryQuiescent && !threadsEnabled) {
 				alts = append(alts, alt{timer: tm, cost: CostTimer})
 			}
 		}
@@ -388,7 +396,9 @@ func (s *Sched) loop() {
 			for i, a := range alts {
 				p.Costs[i] = a.cost
 			}
-			if len(s.cfg.BranchOnly) > 0 {
+			if s.cfg.BranchAfterMark && !s.marked {
+				p.Focus = make([]bool, len(alts))
+			} else if len(s.cfg.BranchOnly) > 0 {
 				p.Focus = make([]bool, len(alts))
 				for i, a := range alts {
 					nm := ""
@@ -396,6 +406,9 @@ func (s *Sched) loop() {
 						nm = a.timer.label
 					} else if a.t != nil {
 						nm = a.t.name
+					}
+					if s.cfg.BranchNoStart && a.t != nil && a.t.op != nil && a.t.op.kind == opStart {
+						continue
 					}
 					for _, sub := range s.cfg.BranchOnly {
 						if strings.Contains(nm, sub) {
@@ -730,4 +743,11 @@ func (s *Sched) fmtArg(a any) string {
 		return fmt.Sprintf("%q", string(b))
 	}
 	return fmt.Sprint(a)
+}
+
+// Mark ends the set-up part of a body (see Config.BranchAfterMark).
+func Mark() {
+	if cur != nil {
+		cur.marked = true
+	}
 }
